@@ -158,7 +158,7 @@ CLAIMED = {
         technique='Lean 4 proof (linear-algebraic naturality over Lin) + wiring extraction from numpy + correspondence check',
         design_ref='DESIGN.md 4/C08'),
     'C03': dict(
-        text='PARTIAL (strong duality is not proved). Theorems about a Lean model of sig_primal / sig_dual: the constrained coefficient '
+        text='PARTIAL (strong duality is proved only for posynomial-plus-constant objectives at level 0 over R^n - Props/C03Strong: the primal optimum is attained at inf f and equals the dual infimum, on the semantic rows of both compiled problems; for general signomials it is observed). Theorems about a Lean model of sig_primal / sig_dual: the constrained coefficient '
              'vector is that of (f - gamma) t^ell as a function of the real point, the modulator is positive, hence gamma <= f on X '
              'whenever the SAGE constraint certifies nonnegativity (C01); the dual attains f(x) at the scaled moment vector of every x '
              '(feasible by C02), so the dual value is <= f on X and the dual is feasible for nonempty X; weak duality given the cone '
